@@ -25,6 +25,9 @@ Definition decode_body (hrp raw_data : list Z) : result (Z * Z * bytes) :=
         let number := number_of (firstn (length data - 7)%nat (skipn 1 data)) in
         let num_bytes := (zlen data - 7) * 5 / 8 in
         let bits_to_ignore := (zlen data - 7) * 5 mod 8 in
+        if (4 <? bits_to_ignore) || negb (Z.land number (Z.shiftl 1 bits_to_ignore - 1) =? 0)
+        then Err
+        else
         let number := Z.shiftr number bits_to_ignore in
         if num_bytes <? 0 then Err
         else
@@ -49,17 +52,17 @@ Lemma decode_split hrp d : known_hrp hrp ->
     else if existsb (Z.eqb 49) d then Err else decode_body hrp d.
 Proof.
   intros [-> | [-> | ->]]; unfold decode_bech32, decode_body; cbn [app hrp_bc hrp_tb hrp_bcrt].
-  - change (starts_with hrp_bcrt (98 :: 99 :: 49 :: d)) with false. cbn iota.
+  - change (starts_with hrp_bcrt1 (98 :: 99 :: 49 :: d)) with false. cbn iota.
     unfold split_one. cbn [split_at]. change (98 =? 49) with false. change (99 =? 49) with false.
     change (49 =? 49) with true. cbn iota.
     change (beq [98; 99] [98; 99; 114; 116]) with false. cbn iota.
     destruct (existsb (Z.eqb 49) d); reflexivity.
-  - change (starts_with hrp_bcrt (116 :: 98 :: 49 :: d)) with false. cbn iota.
+  - change (starts_with hrp_bcrt1 (116 :: 98 :: 49 :: d)) with false. cbn iota.
     unfold split_one. cbn [split_at]. change (116 =? 49) with false. change (98 =? 49) with false.
     change (49 =? 49) with true. cbn iota.
     change (beq [116; 98] [98; 99; 114; 116]) with false. cbn iota.
     destruct (existsb (Z.eqb 49) d); reflexivity.
-  - change (starts_with hrp_bcrt (98 :: 99 :: 114 :: 116 :: 49 :: d)) with true. cbn iota.
+  - change (starts_with hrp_bcrt1 (98 :: 99 :: 114 :: 116 :: 49 :: d)) with true. cbn iota.
     reflexivity.
 Qed.
 
